@@ -30,6 +30,9 @@ fn reenter_enabled() -> bool {
     !NO_REENTER.load(std::sync::atomic::Ordering::Relaxed)
 }
 
+/// Payload text of a panic raised by a stub on purpose.
+pub const SINK_PANIC: &str = "sim: the sink panicked (injected)";
+
 /// A re-entrant operation supplied by the run: performs another operation of the crate on the
 /// current thread and returns a description if its result is not what it must be.
 pub type Nested<'a> = Option<&'a dyn Fn() -> Option<String>>;
@@ -82,6 +85,7 @@ pub struct WriteCtl {
     pub flush_calls: usize,
     pub nested_errors: Vec<String>,
     pub reentered: usize,
+    pub sink_panicked: bool,
 }
 
 impl WriteCtl {
@@ -110,6 +114,7 @@ impl WriteCtl {
             flush_calls: 0,
             nested_errors: Vec::new(),
             reentered: 0,
+            sink_panicked: false,
         }
     }
 }
@@ -153,6 +158,9 @@ fn draw_write(rng: &mut Option<Rng>, cfg: &FaultCfg, len: usize) -> Option<WDec>
     }
     if cfg.w_reenter > 0 && rng.chance(cfg.w_reenter) {
         return Some(WDec::Reenter);
+    }
+    if cfg.w_panic > 0 && rng.chance(cfg.w_panic) {
+        return Some(WDec::Panic);
     }
     Some(WDec::Accept)
 }
@@ -208,6 +216,18 @@ impl<'a> io::Write for SimWriter<'a> {
                 }
                 self.disk.bytes.extend_from_slice(buf);
                 Ok(len)
+            }
+            WDec::Panic => {
+                self.stats.inc(C::w_sink_panic);
+                self.stats.reach.insert((site, 13, 1));
+                self.ctl.faults_delivered += 1;
+                self.ctl.terminal_delivered += 1;
+                self.ctl.sink_panicked = true;
+                self.ctl.log.byte(0x1f);
+                // the medium must not be used afterwards: the writer's owner is gone
+                self.disk.crashed = true;
+                self.disk.len_at_crash = self.disk.bytes.len();
+                std::panic::panic_any(SINK_PANIC);
             }
             WDec::Short(n) => {
                 if len < 2 {
@@ -589,6 +609,7 @@ pub struct SimFmtSink<'a> {
     pub nested: Nested<'a>,
     pub nested_errors: Vec<String>,
     pub reentered: usize,
+    pub panicked: bool,
 }
 
 impl<'a> SimFmtSink<'a> {
@@ -607,6 +628,7 @@ impl<'a> SimFmtSink<'a> {
             nested: None,
             nested_errors: Vec::new(),
             reentered: 0,
+            panicked: false,
         }
     }
 }
@@ -636,6 +658,9 @@ impl<'a> fmt::Write for SimFmtSink<'a> {
             if cfg.f_reenter > 0 && rng.chance(cfg.f_reenter) {
                 return Some(FDec::Reenter);
             }
+            if cfg.f_panic > 0 && rng.chance(cfg.f_panic) {
+                return Some(FDec::Panic);
+            }
             Some(FDec::Accept)
         });
         let site = site_class(s.as_bytes());
@@ -664,6 +689,14 @@ impl<'a> fmt::Write for SimFmtSink<'a> {
                 self.out.push_str(s);
                 self.log.byte(0x44);
                 Ok(())
+            }
+            FDec::Panic => {
+                self.failed += 1;
+                self.panicked = true;
+                self.stats.inc(C::p_sink_panic);
+                self.stats.reach.insert((site, 13, 0));
+                self.log.byte(0x45);
+                std::panic::panic_any(SINK_PANIC);
             }
             FDec::FailTransient => {
                 self.failed += 1;
